@@ -40,8 +40,9 @@ CD_MAGIC = b"PK\x01\x02"
 
 
 # =============================================================================================== zip layer
-def make_zip(entries, comment=b""):
-    """entries: [(name, data, 'stored'|'deflated')] -> bytes.  stdlib zipfile, fixed timestamp, no extra fields."""
+def make_zip(entries, comment=b"", cd_order=None):
+    """entries: [(name, data, 'stored'|'deflated')] -> bytes.  stdlib zipfile, fixed timestamp, no extra fields.
+    cd_order: permutation of range(len(entries)) = order of the CENTRAL DIRECTORY records (default: the local-entry order)."""
     bio = io.BytesIO()
     with zipfile.ZipFile(bio, "w") as z:
         for name, data, method in entries:
@@ -52,6 +53,9 @@ def make_zip(entries, comment=b""):
             z.writestr(zi, data)
         if comment:
             z.comment = comment
+        if cd_order is not None:
+            assert sorted(cd_order) == list(range(len(entries)))
+            z.filelist[:] = [z.filelist[i] for i in cd_order]
     return bio.getvalue()
 
 
